@@ -295,12 +295,48 @@ func isBOMCase(stream []byte) bool {
 
 const defaultMaxEvent = 64 * 1024
 
+// checkReadErrorIdentity feeds stream through sse.Read with a drawn end (clean, or a read error
+// of a drawn identity, alone or together with the last bytes) and checks C11's Read clause: a read
+// error is reported as itself; ErrUnexpectedEOF only for a clean end in mid-line; nothing otherwise.
+func checkReadErrorIdentity(o *Outcome, ch *Chooser, stream []byte) {
+	if RefInterpret(stream, "", false).MaxSpan >= defaultMaxEvent-8 {
+		return
+	}
+	endErr := error(io.EOF)
+	isErr := ch.Chance(1, 2, "Read ends with an error")
+	if isErr {
+		endErr = newInjectedAs("read at the end of the stream", drawDisguise(ch, "read error"))
+	}
+	r := &simReader{data: stream, end: len(stream), endErr: endErr, withData: ch.Chance(1, 3, "error delivered with data"), ch: ch}
+	obs := runRead(r, nil, -1)
+	o.probe("stream also read through sse.Read (error identity)")
+	switch {
+	case obs.panicked != nil:
+		o.violate("C11", "panic", "sse.Read over %q panicked: %v", stream, obs.panicked)
+	case isErr && !errors.Is(obs.err, endErr):
+		o.violate("C11", "read-error-identity", "sse.Read over %q ended by the read error %v reported %v", stream, endErr, obs.err)
+	case !isErr && RefInterpret(stream, "", false).Unterminated && !errors.Is(obs.err, sse.ErrUnexpectedEOF):
+		o.violate("C11", "eof-identity", "sse.Read over %q, which ends cleanly in mid-line, reported %v, want ErrUnexpectedEOF", stream, obs.err)
+	case !isErr && !RefInterpret(stream, "", false).Unterminated && obs.err != nil:
+		o.violate("C11", "eof-identity", "sse.Read over %q, which ends cleanly after a terminated line, reported %v", stream, obs.err)
+	}
+}
+
 func runStreamWorld(rc *RunCtx) *Outcome {
 	o := newOutcome()
 	if rc.KeepLog {
 		o.Log = []string{}
 	}
 	ch := rc.Ch
+	if ch.Chance(1, 4, "other parts of the library used in this process first") {
+		// what a program does before it starts reading a stream must not matter: decode a message,
+		// encode one, make IDs (anything kept between calls - pools, caches - would show here)
+		var m sse.Message
+		_ = m.UnmarshalText([]byte("id: 1\n: a comment\ndata: x\nretry: 5\n\n"))
+		_ = m.String()
+		_, _ = sse.NewID("abc")
+		o.probe("other API used in the process before parsing")
+	}
 	data := genStream(ch)
 	end := len(data)
 	if ch.Chance(1, 3, "cut stream") {
